@@ -24,7 +24,7 @@ structure PointObs where
   tags : List Tag
   time : Int
   fieldKeys : List Bytes     -- `FieldIterator`: `FieldKey()` of every field, in order
-  clean : Bool               -- no accessor panicked, `Fields()` returned no error
+  clean : Bool               -- no accessor (`Name`, `Tags`, iterator values, `Fields`) panicked
 deriving DecidableEq, Repr
 
 structure Obs where
